@@ -129,6 +129,10 @@ func runC04(c *Ctx) {
 		c.verdict(len(find(va, callTo(c.method("neutrino", "ChainService", "AddPeer")))) == 1, "(*neutrino.ServerPeer).OnVerAck | announces the peer to the server (AddPeer)", c.P.Pos(va.Pos()), "AddPeer called", "OnVerAck no longer hands the negotiated peer to the server")
 	})
 
+	c.rule("C04.O2", "recovery from a lying sync peer: after a checkpoint mismatch the store is rolled back to a checkpoint strictly below the failing one (findPreviousHeaderCheckpoint is strict), otherwise the bogus branch stays and outweighs every honest reply of at most 2000 headers", func() {
+		c.prevCheckpointStrict()
+	})
+
 	c.rule("C04.O1", "progress steps (each a necessary condition of convergence): losing the sync peer re-selects one; a new sync candidate triggers startSync; a selected sync peer is asked for headers; a committed headers batch updates the header tip, wakes the filter-header sync and asks for more while not current; committed filter headers wake their waiters; an accepted peer is announced to the block manager and its departure too; the subscription manager is started before the broadcaster subscribes", func() {
 		// handleDonePeerMsg
 		fn := c.fn("(*neutrino.blockManager).handleDonePeerMsg")
